@@ -25,7 +25,9 @@ func errDiscipline(c *Ctx, rule string, fns []*ssa.Function, floor int) {
 	p := c.P
 	errT := types.Universe.Lookup("error").Type()
 	isErr := func(t types.Type) bool { return types.Identical(t, errT) }
-	c.floor(rule, floor)
+	if floor > 0 {
+		c.floor(rule, floor)
+	}
 	sort.Slice(fns, func(i, j int) bool { return fnName(fns[i]) < fnName(fns[j]) })
 	for _, top := range fns {
 		for _, fn := range withAnon(top) {
@@ -206,7 +208,14 @@ func rejectsMismatch(c *Ctx, rule string, fn *ssa.Function, min int) {
 			}
 		case *ssa.Call:
 		case *ssa.UnOp:
-			if _, ok := x.X.(*ssa.Alloc); !ok {
+			switch y := x.X.(type) {
+			case *ssa.Alloc:
+			case *ssa.IndexAddr:
+				// a byte of the received packet
+				if _, isParam := y.X.(*ssa.Parameter); !isParam {
+					continue
+				}
+			default:
 				continue
 			}
 		default:
@@ -243,5 +252,185 @@ func rejectsMismatch(c *Ctx, rule string, fn *ssa.Function, min int) {
 	}
 	if n < min {
 		c.fail(rule, fnName(fn)+"/validates-header", fn.Pos(), fmt.Sprintf("expected at least %d comparisons of decoded header fields with protocol constants, found %d", min, n))
+	}
+}
+
+// pkgFuncs: the non-test top-level functions of the named module packages.
+func pkgFuncs(p *Prog, rel ...string) []*ssa.Function {
+	want := map[string]bool{}
+	for _, r := range rel {
+		want[modPath+"/"+r] = true
+	}
+	var out []*ssa.Function
+	for _, fn := range p.ModFuncs {
+		if isTestFile(p.Fset, fn.Pos()) || fn.Parent() != nil || fn.Pkg == nil || !want[fn.Pkg.Pkg.Path()] {
+			continue
+		}
+		out = append(out, fn)
+	}
+	return out
+}
+
+// commaOkDeref: the pointer obtained from `v, ok := m[k]` is dereferenced
+// (field access, or pointer-receiver method of the module) only where ok is
+// known true; where it joins another value in a φ, it may arrive only from an
+// edge on which ok is true.
+func commaOkDeref(c *Ctx, rule string, fns []*ssa.Function, floor int) {
+	p := c.P
+	c.floor(rule, floor)
+	sort.Slice(fns, func(i, j int) bool { return fnName(fns[i]) < fnName(fns[j]) })
+	for _, top := range fns {
+		for _, fn := range withAnon(top) {
+			var lks []*ssa.Lookup
+			allInstrs(fn, func(i ssa.Instruction) {
+				if lk, ok := i.(*ssa.Lookup); ok && lk.CommaOk {
+					if mt, ok := lk.X.Type().Underlying().(*types.Map); ok {
+						if _, isPtr := mt.Elem().Underlying().(*types.Pointer); isPtr {
+							lks = append(lks, lk)
+						}
+					}
+				}
+			})
+			if len(lks) == 0 {
+				continue
+			}
+			fs := computeFacts(fn)
+			bad := ""
+			n := 0
+			for _, lk := range lks {
+				var v, okv ssa.Value
+				for _, r := range *lk.Referrers() {
+					if ex, ok := r.(*ssa.Extract); ok {
+						if ex.Index == 0 {
+							v = ex
+						} else {
+							okv = ex
+						}
+					}
+				}
+				if v == nil {
+					continue
+				}
+				present := func(facts []Fact) bool {
+					return okv != nil && anyFact(facts, func(f Fact) bool { return f.V == okv && f.T }) ||
+						anyFact(facts, func(f Fact) bool { return cmpFact(f, token.NEQ, func(x ssa.Value) bool { return x == v }, isNilConst) })
+				}
+				var visit func(val ssa.Value, depth int)
+				seen := map[ssa.Value]bool{}
+				visit = func(val ssa.Value, depth int) {
+					if seen[val] || depth > 3 {
+						return
+					}
+					seen[val] = true
+					for _, r := range *val.Referrers() {
+						switch x := r.(type) {
+						case *ssa.FieldAddr:
+							n++
+							if val == v && !present(fs.At(x.Block())) {
+								bad = "dereferenced at " + p.pos(x.Pos()) + " where the lookup is not known to have succeeded"
+							}
+						case *ssa.Call:
+							if sc := x.Call.StaticCallee(); sc != nil && !x.Call.IsInvoke() && len(x.Call.Args) > 0 && x.Call.Args[0] == val && sc.Signature.Recv() != nil && inModule(sc) {
+								n++
+								if val == v && !present(fs.At(x.Block())) {
+									bad = "used as the receiver of " + sc.Name() + " at " + p.pos(x.Pos()) + " where the lookup is not known to have succeeded"
+								}
+							}
+						case *ssa.Phi:
+							for k, e := range x.Edges {
+								if e != val {
+									continue
+								}
+								pred := x.Block().Preds[k]
+								facts := append([]Fact(nil), fs.At(pred)...)
+								if ef, ok := edgeFact(pred, x.Block()); ok {
+									facts = append(facts, ef)
+								}
+								if val == v && !present(facts) {
+									// the joined value is dereferenced later?
+									derefLater := false
+									for _, rr := range *x.Referrers() {
+										switch y := rr.(type) {
+										case *ssa.FieldAddr:
+											derefLater = true
+										case *ssa.Call:
+											if sc := y.Call.StaticCallee(); sc != nil && len(y.Call.Args) > 0 && y.Call.Args[0] == ssa.Value(x) && sc.Signature.Recv() != nil {
+												derefLater = true
+											}
+										}
+									}
+									if derefLater && !present(fs.At(x.Block())) {
+										n++
+										bad = "the result of a failed lookup reaches a dereference through the join at " + p.pos(x.Pos())
+									}
+								}
+							}
+						}
+					}
+				}
+				visit(v, 0)
+			}
+			if n == 0 {
+				continue
+			}
+			c.analysed(fnName(fn))
+			name := fnName(fn)
+			if fn != top {
+				name = fnName(top) + "/" + strings.TrimPrefix(fn.Name(), top.Name())
+			}
+			c.check(bad == "", rule, name+"/checked-lookup-deref", fn.Pos(), fmt.Sprintf("%d dereferences of checked lookups, all under ok", n), "nil pointer dereference: the entry of a `v, ok := m[k]` lookup is "+bad)
+		}
+	}
+}
+
+// dispatchOnlyForVersion: in a receive dispatcher every hand-over to a
+// message handler (a method of the same receiver) happens under the fact that
+// the decoded version byte equals the supported version.
+func dispatchOnlyForVersion(c *Ctx, rule string, fn *ssa.Function) {
+	var ver *ssa.NamedConst
+	if fn.Pkg != nil {
+		if m, ok := fn.Pkg.Members["supportedVersion"].(*ssa.NamedConst); ok {
+			ver = m
+		}
+	}
+	if ver == nil {
+		c.fail(rule, fnName(fn)+"/supportedVersion", fn.Pos(), "constant supportedVersion not found")
+		return
+	}
+	fs := computeFacts(fn)
+	n := 0
+	for _, g := range withAnon(fn) {
+		if g != fn {
+			continue
+		}
+		allInstrs(g, func(i ssa.Instruction) {
+			cl, ok := i.(*ssa.Call)
+			if !ok || cl.Call.IsInvoke() {
+				return
+			}
+			sc := cl.Call.StaticCallee()
+			if sc == nil || sc.Signature.Recv() == nil || fn.Signature.Recv() == nil || !types.Identical(sc.Signature.Recv().Type(), fn.Signature.Recv().Type()) {
+				return
+			}
+			if sc.Signature.Results().Len() == 0 {
+				return // not a handler whose outcome the dispatcher reports
+			}
+			n++
+			facts := fs.At(cl.Block())
+			good := anyFact(facts, func(f Fact) bool {
+				return cmpFact(f, token.EQL, func(v ssa.Value) bool {
+					_, isConst := v.(*ssa.Const)
+					return !isConst
+				}, func(v ssa.Value) bool {
+					k, ok := v.(*ssa.Const)
+					return ok && k.Value != nil && types.Identical(k.Type(), ver.Type()) && k.Value.ExactString() == ver.Value.Value.ExactString()
+				})
+			})
+			c.check(good, rule, fnName(fn)+"/"+sc.Name()+"/only-supported-version", cl.Pos(), "handler reached only under version == supportedVersion",
+				"the message handler "+sc.Name()+" is reached without the fact version == supportedVersion (check missing or inverted): bytes of another protocol version are decoded and applied; facts "+factStrings(facts))
+		})
+	}
+	if n == 0 {
+		c.fail(rule, fnName(fn)+"/handlers", fn.Pos(), "no hand-over to a message handler found")
 	}
 }
